@@ -20,11 +20,12 @@ def mc(chk, tier, d):
     o16 = os.path.join(d, "enc16.out")
     jobs.append(dict(module="AsmEncodeMC", cfg="AsmEncodeMC16.cfg", workers=1, env={"OUT": o16}, heap="2g"))
     outs.append(o16)
-    for t in nibs:
-        cfg = os.path.join(d, "enc32_%d.cfg" % t)
-        open(cfg, "w").write("INIT Init\nNEXT Next\nCONSTANTS\n  BPW = 4\n  NibSet = {%s}\n  Tops = {%d}\nCHECK_DEADLOCK FALSE\n"
-                             % (", ".join(map(str, nibs)), t))
-        o = os.path.join(d, "enc32_%d.out" % t)
+    slices = [(t, nibs) for t in nibs] if tier == "quick" else [(t, [s2]) for t in nibs for s2 in nibs]
+    for k, (t, secs) in enumerate(slices):
+        cfg = os.path.join(d, "enc32_%d.cfg" % k)
+        open(cfg, "w").write("INIT Init\nNEXT Next\nCONSTANTS\n  BPW = 4\n  NibSet = {%s}\n  Tops = {%d}\n  Seconds = {%s}\nCHECK_DEADLOCK FALSE\n"
+                             % (", ".join(map(str, nibs)), t, ", ".join(map(str, secs))))
+        o = os.path.join(d, "enc32_%d.out" % k)
         jobs.append(dict(module="AsmEncodeMC", cfg=cfg, workers=1, env={"OUT": o}, heap="3g"))
         outs.append(o)
     vlib.tlc_parallel(jobs, nproc=vlib.NCPU)
